@@ -108,3 +108,11 @@ CLAIMED["C16"] = ("schema folding + view/SQL agreement + edge-cut limit guards w
   "never answers from a cache. Right level: limits at every boundary incl. 2^64 are guard-shape facts; equality of the views with a reference "
   "ledger over histories is not claimed.",
   TRUST, "DESIGN.md §3 C16")
+CLAIMED["C20"] = ("JSON addressability walk over static types + error provenance over the call graph + edge-cut masking/cache discipline + constant tables",
+  "Decides that every response marshalling reaches the pointer-receiver marshalers of the state-carrying types, that the enum name tables are "
+  "inverse, that no foreign error can be forwarded into a response, that internal codes exist only as *cashu.Error and every handler masks "
+  "each one its operation can produce, that each validation guard's reject edge returns the repository's error value for that cause with the "
+  "pinned numeric code, the NUT-19 cache discipline (key = method+URL+raw body, hit skips the operation, store only successful marshalled "
+  "bytes that were written) and the status discipline. Right level: the transport's faithfulness for every outcome is a finite set of "
+  "code-shape facts; byte-level bodies are not claimed.",
+  TRUST, "DESIGN.md §3 C20")
